@@ -134,6 +134,14 @@ pub fn spec_for(seed: u64, index: u64) -> sysgen::SysSpec {
     if index % 6 == 4 {
         sysgen::add_array_io(&mut spec, index / 6);
     }
+    if index % 7 == 3 {
+        sysgen::add_wide_signals(&mut spec, index / 7);
+    }
+    // constraints and bad states that the simplifier resolves completely (to true and to false), and a
+    // register nobody observes that is fed by an (anonymous) input of its own
+    if index % 5 == 1 {
+        sysgen::add_trivial_properties(&mut spec, index / 5);
+    }
     spec
 }
 
